@@ -292,6 +292,26 @@ fn time_of_day(ctx: &mut Ctx, full: bool) {
         if !matches!(&got, Outcome::Ok((a, b, c, d, rt)) if (*a, *b, *c, *d) == (h, m, s, nano) && *rt == Some(t)) {
             viol(ctx, "Time components / chrono round trip", None, json!({"family": fam, "built_with": how, "h": h, "m": m, "s": s, "nanos": nano}), format!("({h},{m},{s},{nano}) and from_cr(as_cr(t)) == t"), format!("{got:?}"));
         }
+        // the Timelike setters replace exactly one component (None for an out-of-range value)
+        for (which, vals) in [(0u8, vec![0u32, 7, 23, 24]), (1, vec![0, 31, 59, 60]), (2, vec![0, 31, 59, 60]), (3, vec![0, 1, 999_999_999])] {
+            for v in vals {
+                let got = catch(|| match which {
+                    0 => t.with_hour(v),
+                    1 => t.with_minute(v),
+                    2 => t.with_second(v),
+                    _ => t.with_nanosecond(v),
+                }
+                .map(|n| (n.hour() as i64, n.minute() as i64, n.second() as i64, n.nanosecond() as i64)));
+                let limit = [24u32, 60, 60, 1_000_000_000][which as usize];
+                let mut want = [h, m, s, nano];
+                want[which as usize] = v as i64;
+                let want = if v < limit { Some((want[0], want[1], want[2], want[3])) } else { None };
+                ctx.transitions += 1;
+                if !matches!(&got, Outcome::Ok(g) if *g == want) {
+                    viol(ctx, "Time::with_hour / with_minute / with_second / with_nanosecond", None, json!({"family": fam, "time": [h, m, s, nano], "component": which, "value": v}), format!("{want:?}"), format!("{got:?}"));
+                }
+            }
+        }
         for (d, ns) in &durs {
             ctx.transitions += 1;
             let r = catch(|| ((t + *d).0, (t - *d).0));
